@@ -477,6 +477,7 @@ structure ChunkIter where
 /-- `char::decode_utf16(..)`: items are `Ok(char)` or `Err(DecodeUtf16Error)` (an unpaired surrogate) -/
 structure Utf16Iter where
   items : List (Rs Chr)
+  hint : Nat           -- lower bound of `DecodeUtf16::size_hint` on a fresh decoder
 inductive Utf8ErrorT | mk
 inductive FromUtf16ErrorT | mk
 def FromUtf16Error : FromUtf16ErrorT := .mk
@@ -494,8 +495,15 @@ def char.REPLACEMENT_CHARACTER : Chr := ⟨replacement, 3⟩
 def U16Slice.rs_iter {ρ} (x : U16Slice) : M ρ U16Slice := pure x
 def U16Slice.rs_copied {ρ} (x : U16Slice) : M ρ U16Slice := pure x
 def char.decode_utf16 {ρ} (x : U16Slice) : M ρ Utf16Iter :=
-  pure ⟨(decodeUtf16 x.u).map fun o => match o with | some b => .ok ⟨b, b.length⟩ | none => .err⟩
+  pure ⟨(decodeUtf16 x.u).map (fun o => match o with | some b => .ok ⟨b, b.length⟩ | none => .err), (x.u.length + 1) / 2⟩
 def Utf16Iter.rs_for_each {ρ} (it : Utf16Iter) (body : Rs Chr → M ρ Unit) : M ρ Unit := forLoop body (it.items.map some)
+/-- `.map(|c| …)` with a closure that captures nothing: applied to the items in order -/
+def mapItems {ρ} (f : Rs Chr → M ρ Chr) : List (Rs Chr) → M ρ (List (Option Chr))
+  | [] => pure []
+  | x :: xs => bind (f x) fun c => bind (mapItems f xs) fun cs => pure (some c :: cs)
+def Utf16Iter.rs_map {ρ} (it : Utf16Iter) (f : Rs Chr → M ρ Chr) : M ρ CharIter :=
+  bind (mapItems f it.items) fun cs => pure ⟨it.hint, cs⟩
+def Rs.rs_unwrap_or {ρ α} (r : Rs α) (d : α) : M ρ α := pure (match r with | .ok a => a | .err => d)
 
 /-! ## One level down: what `heap_buffer.rs` itself is written in
 
